@@ -180,6 +180,9 @@ func (c *Counter) rollUp() {
 func (c *Counter) doRollUp(fromLabel, toLabel pb.RollUpLabel, rollUpDuration, truncateDuration time.Duration) {
 	newHistory := make([]*pb.History, 0)
 	var last *pb.History
+	// Read the clock once, so that every entry is aged against the same instant
+	// and the rolled up history stays ordered in time.
+	now := time.Now()
 	for _, h := range c.history {
 		// case 1: h should not be rolled up
 		if h.GetRollUp() != fromLabel {
@@ -191,7 +194,7 @@ func (c *Counter) doRollUp(fromLabel, toLabel pb.RollUpLabel, rollUpDuration, tr
 			continue
 		}
 		t := time.UnixMilli(h.GetTimeUnixMilli())
-		if time.Since(t) <= rollUpDuration {
+		if now.Sub(t) <= rollUpDuration {
 			if last != nil {
 				newHistory = append(newHistory, last)
 				last = nil
